@@ -1928,4 +1928,117 @@ theorem ndIndex_outside (P : Part) (v : List Rat) (hb : ¬ InBox P v) : ndIndex 
           · exact Or.inr (not_le.1 h)
         simp [ndIndex, this]
 
+/-! ### round 4 (third part): `is_uniform` with its tolerance -/
+
+theorem isUniform_iff (t : Tol) (P : Part1) :
+    P.isUniform t = true ↔
+      ∀ i, i + 1 < P.n → rabs ((P.c (i + 1) - P.c i) - (P.c 1 - P.c 0)) ≤ t.atol + t.rtol * rabs (P.c 1 - P.c 0) := by
+  unfold Part1.isUniform isClose
+  rw [List.all_eq_true]
+  constructor
+  · intro h i hi
+    have := h i (List.mem_range.2 (by omega))
+    simpa using this
+  · intro h i hi
+    have := h i (by have := List.mem_range.1 hi; omega)
+    simpa using this
+
+theorem isUniform_of_equal_diffs (t : Tol) (h1 : 0 ≤ t.atol) (h2 : 0 ≤ t.rtol) (P : Part1)
+    (h : ∀ i, i + 1 < P.n → P.c (i + 1) - P.c i = P.c 1 - P.c 0) : P.isUniform t = true := by
+  rw [isUniform_iff]
+  intro i hi
+  rw [h i hi, sub_self, rabs_zero]
+  have : 0 ≤ rabs (P.c 1 - P.c 0) := by unfold rabs; split_ifs <;> linarith
+  positivity
+
+theorem isUniform_exact_iff (P : Part1) :
+    P.isUniform Tol.exact = true ↔ ∀ i, i < P.n → P.c i = P.c 0 + (i : Rat) * (P.c 1 - P.c 0) := by
+  rw [isUniform_iff]
+  simp only [Tol.exact, zero_mul, add_zero]
+  constructor
+  · intro h i
+    induction i with
+    | zero => intro _; simp
+    | succ i ih =>
+      intro hi
+      have h0 := (rabs_le_iff _ 0).1 (h i hi)
+      have := ih (by omega)
+      push_cast
+      linarith [h0.1, h0.2]
+  · intro h i hi
+    have a := h (i + 1) hi
+    have b := h i (by omega)
+    push_cast at a
+    have : P.c (i + 1) - P.c i - (P.c 1 - P.c 0) = 0 := by rw [a, b]; ring
+    rw [this, rabs_zero]
+
+/-- drift of a grid the code calls uniform from the exactly affine grid through its first two nodes -/
+theorem isUniform_drift (t : Tol) (P : Part1) (h : P.isUniform t = true) (i : Nat) (hi : i < P.n) :
+    rabs (P.c i - (P.c 0 + (i : Rat) * (P.c 1 - P.c 0))) ≤
+      (i : Rat) * (t.atol + t.rtol * rabs (P.c 1 - P.c 0)) := by
+  rw [isUniform_iff] at h
+  induction i with
+  | zero => simp [rabs_zero]
+  | succ i ih =>
+    have h0 := (rabs_le_iff _ _).1 (h i hi)
+    have h1 := (rabs_le_iff _ _).1 (ih (by omega))
+    rw [rabs_le_iff]
+    push_cast
+    constructor <;> nlinarith [h0.1, h0.2, h1.1, h1.2]
+
+/-! ### round 4: negative step from cell 0 (finding C14-F5) -/
+
+theorem getSlice_neg_from_zero (P : Part1) (hv : Valid P) (hn : 2 ≤ P.n) (st : Int) (hst : st < 0) :
+    ∃ Q, P.getSlice (some 0) none (some st) = some Q ∧ Q.n = 1 ∧ Q.c 0 = P.c 0 ∧
+      Q.lo = P.lo ∧ Q.hi = P.hi ∧ P.bdry 1 < Q.hi := by
+  have hL : (P.n : Int) ≠ 0 := by omega
+  have hg : sliceIndices (some 0) none st P.n = (0, -1) := by
+    simp only [sliceIndices, hst, if_true]
+    have : ¬ ((0 : Int) < 0) := by omega
+    simp only [this, if_false]
+    congr 1
+    omega
+  have hh : sliceIndices (some 0) none 1 P.n = (0, (P.n : Int)) := by
+    simp only [sliceIndices]
+    have h1 : ¬ ((1 : Int) < 0) := by omega
+    have : ¬ ((0 : Int) < 0) := by omega
+    simp only [h1, this, if_false]
+    have hmin : min (0 : Int) (P.n : Int) = 0 := by omega
+    rw [hmin]
+  have hm : sliceLen 0 (-1) st = 1 := by
+    unfold sliceLen
+    have h1 : ¬ (0 < st) := by omega
+    rw [if_neg h1, if_pos (by omega)]
+    have : ((0 : Int) - -1 - 1) / -st = 0 := by simp
+    rw [this]; rfl
+  let Q : Part1 := ⟨1, fun (i : Nat) => P.c ((0 : Int) + (i : Int) * st).toNat, P.bdry 0, P.bdry P.n⟩
+  have hc0 : Q.c 0 = P.c 0 := by simp [Q]
+  have hlo : Q.lo = P.lo := bdry_zero P hv.pos
+  have hhi : Q.hi = P.hi := bdry_last P
+  have hQ : Valid Q := by
+    refine ⟨le_refl _, fun i hi => absurd hi (by simp [Q]), ?_, ?_⟩
+    · rw [hlo, hc0]; exact hv.lo_le
+    · show Q.c (1 - 1) ≤ Q.hi
+      rw [hhi, show (1 : Nat) - 1 = 0 from rfl, hc0]
+      exact le_trans (hv.c_mono (Nat.zero_le _) (by omega)) hv.le_hi
+  refine ⟨Q, ?_, rfl, hc0, hlo, hhi, ?_⟩
+  · unfold Part1.getSlice
+    have c1 : ((some (0 : Int)).isSome && (some (0 : Int) == (none : Option Int)) ||
+        (some (0 : Int) == some (P.n : Int))) = false := by
+      simp; omega
+    rw [if_neg (by rw [c1]; simp)]
+    simp only [Option.getD_some]
+    rw [if_neg (by omega), hh, hg]
+    simp only []
+    rw [if_neg (by omega), hm]
+    have : (⟨1, fun (i : Nat) => P.c ((0 : Int) + (i : Int) * st).toNat, P.bdry (0 : Int).toNat,
+        P.bdry ((P.n : Int)).toNat⟩ : Part1) = Q := by simp [Q]
+    rw [this]
+    exact mk?_of_valid Q hQ
+  · rw [hhi]
+    have h1 := bdry_lt_succ P hv (Or.inl hn) 1 (by omega)
+    have h2 : P.bdry 2 ≤ P.bdry P.n := bdry_mono_le P hv (Or.inl hn) 2 P.n hn (le_refl _)
+    rw [bdry_last] at h2
+    linarith
+
 end OdlModel.Partition
